@@ -7,6 +7,7 @@ import Zlink.Model.DriverEnv
 import Zlink.Model.DriverIdl
 import Zlink.Model.DriverNotif
 import Zlink.Model.DriverUnix
+import Zlink.Model.DriverAlias
 /-! `zmodel`: reads case lines on stdin, prints for each the model's observation and the Lean
     oracle's verdict on the implementation's observation. -/
 
@@ -19,6 +20,7 @@ def handleLine (line : String) : String :=
   | "ser" :: _ => DriverSer.handle ts
   | "chain" :: _ => DriverChain.handle ts
   | "srv" :: _ => DriverSrv.handle ts
+  | "alias" :: _ => DriverAlias.handle ts
   | "unix" :: _ => DriverUnix.handle ts
   | "notif" :: _ => DriverNotif.handle ts
   | "once" :: _ => DriverNotif.handle ts
